@@ -47,3 +47,10 @@ func (r *Rand) Perm(n int) []int {
 	}
 	return p
 }
+
+// Shuffle permutes n elements through swap (Fisher-Yates).
+func (r *Rand) Shuffle(n int, swap func(i, j int)) {
+	for i := n - 1; i > 0; i-- {
+		swap(i, r.Intn(i+1))
+	}
+}
